@@ -2,7 +2,6 @@ package frontend
 
 import (
 	"fmt"
-	"math"
 	"net/http"
 	"strings"
 	"sync/atomic"
@@ -173,7 +172,8 @@ func (s *DataService) executeQuery(req *QueryRequest) (*QueryResponse, error) {
 	}
 
 	epochStart := int64(0)
-	epochEnd := int64(math.MaxInt64)
+	// the latest instant time.Time can represent (time.Unix(math.MaxInt64, 0) overflows into the past)
+	epochEnd := planner.MaxTime.Unix()
 	var epochStartNanos, epochEndNanos int64
 	if req.EpochStart != nil {
 		epochStart = *req.EpochStart
